@@ -31,10 +31,12 @@ META = {
                    "a remote equal to the old tree into one equal to the new tree, marker updated, whenever the executable guard "
                    "upload_guard holds (C43_incremental_exact_guarded), and so does any sequence of guarded uploads; full upload "
                    "onto an empty remote is exact; an upload changes nothing outside the sub-trees of the paths it names, which "
-                   "are never ignored paths (up to renames across the ignore boundary), and writes the marker last. The "
-                   "unguarded statement is REFUTED by 12 machine-checked witnesses, all replayed on the real uploader "
-                   "(candidate defects). On the generated uploads the guard holds exactly when none of the refuted change "
-                   "patterns occurs (and no ignore list is in force)."),
+                   "are never ignored paths (up to renames across the ignore boundary), and writes the marker last. After the "
+                   "repair round (46295b6 c541353 e87df2d 5c5eacc) the model is the repaired uploader and the guard covers "
+                   "the repaired classes (rename+chmod/kind/target, rename onto a removed directory, kind change below a "
+                   "renamed directory, symlinks below the root / modified); the unguarded statement is still REFUTED by 5 "
+                   "machine-checked witnesses (residue of the rename ordering; full upload keeps stale files), all replayed "
+                   "on the real uploader."),
     "level_note": ("Trusted: Coq kernel, vm_compute; the hand model's correspondence (bounded: sequences of <=6 commits over 6 "
                    "names); the LocalTransport/POSIX behaviour as modelled in Lib/FS43.v; fresh temporary names."),
     "design_ref": "DESIGN.md §5 C43",
@@ -135,23 +137,23 @@ def patterns(old, new, ign, old_ign=None):
     rem_dirs = [old[i][0] for i in d["removed"] if old[i][1] == "d"]
     rem_all = {old[i][0] for i in d["removed"]}
     old_paths = {v[0]: v for v in old.values()}
+    # renamed entries whose kind or symlink target changed are removed and re-created with the additions
+    rec = {i for i in ren if old[i][1] != new[i][1] or (new[i][1] == "l" and old[i][2] != new[i][2])}
     for i in ren:
-        ov, nv = old[i], new[i]
-        if ov[1] != nv[1]:
-            out.add("rename+kind")
-        elif ov[1] == "l" and ov[2] != nv[2]:
-            out.add("rename+retarget")
-        elif ov[1] == "f" and ov[2] == nv[2] and ov[3] != nv[3]:
-            out.add("rename+exec")
-        if any(j != i and is_prefix(o[j], o[i]) for j in ren):
+        # an entry below a directory that is staged away (renamed, not re-created) before it is handled
+        if any(j != i and j not in rec and is_prefix(o[j], o[i]) for j in ren):
             out.add("nested-rename")
-        par = dirname(n[i])
-        if par:
-            pv = old_paths.get(par)
-            if pv is None or pv[1] != "d" or par in rem_all or any(is_prefix(o[j], par) for j in ren):
-                out.add("rename-into-later-dir")
-        if n[i] in rem_dirs or any(is_prefix(dd, n[i]) or is_prefix(n[i], dd) for dd in rem_dirs):
-            out.add("rename-onto-removed-dir")
+        if i in rec:
+            # its deferred rmdir comes before the one of a removed, still non-empty sub-directory
+            if old[i][1] == "d" and any(dd != o[i] and is_prefix(o[i], dd) and
+                                        any(q != dd and is_prefix(dd, q) for q in old_paths) for dd in rem_dirs):
+                out.add("recreated-dir-with-deferred-subdir")
+        else:
+            par = dirname(n[i])
+            if par:
+                pv = old_paths.get(par)
+                if pv is None or pv[1] != "d" or par in rem_all or any(is_prefix(o[j], par) for j in ren):
+                    out.add("rename-into-later-dir")
         # only these two ignore-boundary renames fail on the unchanged code: the old path was never uploaded, or
         # the directory of the new path was never uploaded.  (not ignored -> ignored works: the entry is moved
         # away; both ignored: skipped.)
@@ -164,7 +166,8 @@ def patterns(old, new, ign, old_ign=None):
         if not ignored(ign, o[i]) and ignored(ign, n[i]) and n[i] in old_paths:
             out.add("rename-onto-ignored-leftover")
     for i in d["removed"]:
-        if old[i][1] == "d" and any(is_prefix(o[j], old[i][0]) for j in ren):
+        if old[i][1] == "d" and any(j not in rec and is_prefix(o[j], old[i][0]) for j in ren) and any(
+                q != old[i][0] and is_prefix(old[i][0], q) for q in old_paths):
             out.add("removed-dir-under-rename")
         # an ignored entry is never deleted, so the directory around it cannot be removed
         if old[i][1] == "d" and not ignored(ign, old[i][0]) and any(
@@ -174,16 +177,6 @@ def patterns(old, new, ign, old_ign=None):
         if old[i][1] == "d" and not ignored(ign, new[i][0]) and any(
                 q != old[i][0] and is_prefix(old[i][0], q) and ignored(ign, q) for q in old_paths):
             out.add("ignored-under-removed-dir")
-        if old[i][0] != new[i][0]:
-            out.add("kind-change-under-rename")
-        if new[i][1] == "l" and "/" in new[i][0] and not ignored(ign, new[i][0]):
-            out.add("symlink-subdir")
-    for i in d["added"]:
-        if new[i][1] == "l" and "/" in new[i][0] and not ignored(ign, new[i][0]):
-            out.add("symlink-subdir")
-    for i in d["modified"]:
-        if new[i][1] == "l" and not ignored(ign, new[i][0]):
-            out.add("symlink-modified")
     return out
 
 
@@ -635,11 +628,11 @@ def oracle(inp, obs):
 # known findings: which (old, new) change patterns the failing step contains
 # ----------------------------------------------------------------------------
 FINDINGS = {
+    # residue after the partial repair 46295b6
     "C43-rename-staging-order": {"nested-rename", "rename-into-later-dir", "removed-dir-under-rename",
-                                 "kind-change-under-rename", "rename-onto-removed-dir"},
-    "C43-rename-loses-change": {"rename+kind", "rename+retarget", "rename+exec"},
-    "C43-incremental-symlink": {"symlink-subdir", "symlink-modified"},
-    "C43-full-keeps-stale": {"full-stale", "full-symlink-over-file"},
+                                 "recreated-dir-with-deferred-subdir"},
+    # residue after the partial repair 5c5eacc (by design)
+    "C43-full-keeps-stale": {"full-stale"},
     "C43-ignore-boundary": {"rename-from-ignored", "rename-into-ignored-dir", "rename-onto-ignored-leftover", "unignored",
                             "ignored-under-removed-dir"},
 }
@@ -667,8 +660,6 @@ def failing_step_patterns(inp, why):
                     newp = {v[0]: v for v in new.values()}
                     if any(p not in newp or any(is_prefix(q, p) and newp[q][1] != "d" and q != p for q in newp) for p in oldp):
                         out.add("full-stale")
-                    if any(p in oldp and oldp[p][1] == "f" and v[1] == "l" for p, v in newp.items()):
-                        out.add("full-symlink-over-file")
                 return out
             return patterns(rev_map(trees[marker]), new, ign, rev_ign(trees[marker]))
         if not refused:
@@ -722,7 +713,8 @@ def corpus():
     out.append(seq([F(1, "a", "A")], [F(1, "b", "B", 1)]))
     out.append(seq([F(1, "a", "1"), F(2, "b", "2")], [F(1, "b", "1")]))
     out.append(seq([D(1, "d")], [D(1, "e"), F(2, "e/f", "B", 1), D(3, "e/c"), F(4, "e/c/a", "B", 1)]))
-    # the refutation witnesses (candidate defects)
+    # the witnesses of the defects found (those repaired in the repair round must now PASS; the others are the
+    # residue that is still a known finding)
     out.append(seq([D(1, "d"), F(2, "d/f", "A")], [D(1, "e"), F(2, "e/a", "A")]))                           # nested rename
     out.append(seq([F(1, "f", "A")], [F(1, "e/f", "A"), D(2, "e")]))                                          # into new dir
     out.append(seq([F(1, "f", "A")], [D(1, "e")]))                                                            # rename + kind
@@ -731,6 +723,7 @@ def corpus():
     out.append(seq([D(1, "d"), F(2, "d/f"), D(3, "e")], [D(3, "d")]))                                         # onto removed dir
     out.append(seq([D(1, "d"), F(2, "d/f", "A")], [D(1, "e"), L(2, "e/f", "t")]))                           # kind change under rename
     out.append(seq([D(1, "d"), D(2, "d/c"), F(3, "d/c/f")], [D(1, "e")]))                                     # removed subdir under rename
+    out.append(seq([D(1, "d"), D(2, "d/c"), F(3, "d/c/a", "A")], [F(1, "e", "B", 1), F(3, "a", "A")]))         # re-created dir, deferred subdir
     out.append(seq([D(1, "d")], [D(1, "d"), L(2, "d/a", "t")]))                                               # symlink in subdir
     out.append(seq([L(1, "a", "t")], [L(1, "a", "u")]))                                                       # modified symlink
     out.append(seq([D(1, "d"), F(2, "a", "X")], [D(1, "e"), F(2, "e/a", "X")]))                             # into later renamed dir
